@@ -53,8 +53,8 @@ claim("C06",
       "DESIGN.md C06")
 
 claim("C11",
-      "The real AuthenticateConnection is executed symbolically against an arbitrary user table and must succeed exactly when the named user exists, is enabled and is password-less or holds the supplied password in plaintext or as its SHA-256; a failed attempt must leave the connection's user and authenticated flag as they were and never touches other connections; new connections start as the default user; SETUSER / DELUSER edits are followed by AUTH probes; User.Replace/Merge (ACL LOAD) must carry flags and credentials over.",
-      "SHA-256 is modelled as an injective uninterpreted function (collision freedom assumed). File round trips of ACL SAVE/LOAD are not covered. Bounds in the evidence assumptions.",
+      "The real AuthenticateConnection is executed symbolically against an arbitrary user table and must succeed exactly when the named user exists, is enabled and is password-less or holds the supplied password in plaintext or as its SHA-256; a failed attempt must leave the connection's user and authenticated flag as they were and never touches other connections; new connections start as the default user; SETUSER / DELUSER edits are followed by AUTH probes; User.Replace/Merge (ACL LOAD) must carry flags and credentials over; ACL SAVE to a JSON file followed by a restart (NewACL) or by ACL LOAD REPLACE into an edited table reproduces the same users and rules (modelled file system and encoding/json).",
+      "SHA-256 is modelled as an injective uninterpreted function (collision freedom assumed). YAML config files are not covered. Bounds in the evidence assumptions.",
       "DESIGN.md C11")
 
 claim("C12",
